@@ -388,11 +388,14 @@ func (c *rCase) paginationOracle(cx *Ctx, res map[int][2]string) {
 	nextDangling := false
 	emptyDropOnly := false
 	bothDefects := false
+	noneShown := false // the pages that rendered show nothing of a content whose first row is not empty
 	fail := func(class, detail string) { pending = append(pending, pend{class, detail}) }
 	defer func() {
 		for _, p := range pending {
 			cls := p.class
 			switch {
+			case cls == "rows" && noneShown:
+				cls = "rows-none-shown"
 			case cls == "rows" && emptyDropOnly:
 				cls = "rows-empty-row-dropped"
 			case (cls == "rows" || cls == "next-entry" || cls == "page-after-gap") && longerBrowseLabel(c) && !emptyDropOnly:
@@ -405,6 +408,10 @@ func (c *rCase) paginationOracle(cx *Ctx, res map[int][2]string) {
 				cls = "next-entry-unrenderable-page"
 			}
 			cx.Fail("C02", cls, p.detail)
+			if cls == "rows" || cls == "rows-none-shown" {
+				// rows of the content are missing or altered on pages that rendered without an error
+				cx.Fail("C01", "silently-truncated", p.detail)
+			}
 		}
 	}()
 	// past the end: an error, never ok, never panic (checked for every rendered index >= n)
@@ -523,6 +530,9 @@ func (c *rCase) paginationOracle(cx *Ctx, res map[int][2]string) {
 					}
 				}
 			}
+		}
+		if len(rows) > 0 && rows[0] != "" && strings.Join(got, "") == "" {
+			noneShown = true
 		}
 		fail("rows", fmt.Sprintf("pages 0..%d show rows %q, content rows are %q", n-1, got, rows))
 	}
